@@ -212,9 +212,11 @@ func (f *FuncCFG) reach(from Point, o *searchOpts, target func(pt Point, atExit 
 		path  []string
 		facts map[types.Object]bool // boolean local: its value; error local: true = non-nil
 		rets  map[*region]int8      // error result of the return last taken in a region: 1 non-nil, -1 nil
+		retv  map[*region]string    // all results of that return, one of + - 0 per result (for tuple assignments)
 	}
+	var curRetv map[*region]string
 	fp := func(b *cfg.Block, facts map[types.Object]bool, rets map[*region]int8) string {
-		if len(facts) == 0 && len(rets) == 0 {
+		if len(facts) == 0 && len(rets) == 0 && len(curRetv) == 0 {
 			return fmt.Sprintf("%p", b)
 		}
 		var ks []string
@@ -224,13 +226,22 @@ func (f *FuncCFG) reach(from Point, o *searchOpts, target func(pt Point, atExit 
 		for rg, v := range rets {
 			ks = append(ks, fmt.Sprintf("%p=%d", rg, v))
 		}
+		for rg, v := range curRetv {
+			ks = append(ks, fmt.Sprintf("%p~%s", rg, v))
+		}
 		sort.Strings(ks)
 		return fmt.Sprintf("%p|%s", b, strings.Join(ks, ","))
 	}
+	// variables whose nil-ness is carried along a path: error locals and pointer locals
 	isErrVar := func(e ast.Expr) types.Object {
 		o := objOfIdentRaw(f.Info, e)
-		if v, ok := o.(*types.Var); ok && types.Identical(v.Type(), errorType) {
-			return v
+		if v, ok := o.(*types.Var); ok && !v.IsField() {
+			if types.Identical(v.Type(), errorType) {
+				return v
+			}
+			if _, isPtr := v.Type().Underlying().(*types.Pointer); isPtr {
+				return v
+			}
 		}
 		return nil
 	}
@@ -246,7 +257,13 @@ func (f *FuncCFG) reach(from Point, o *searchOpts, target func(pt Point, atExit 
 			if isErrorConstructor(calleeShort(f.Info, c)) {
 				return 1
 			}
+			if id, isId := ast.Unparen(c.Fun).(*ast.Ident); isId && id.Name == "new" {
+				return 1
+			}
 			return 0
+		}
+		if u, ok := e.(*ast.UnaryExpr); ok && u.Op == token.AND {
+			return 1
 		}
 		if o := isErrVar(e); o != nil {
 			if v, has := facts[o]; has {
@@ -353,6 +370,9 @@ func (f *FuncCFG) reach(from Point, o *searchOpts, target func(pt Point, atExit 
 		if types.Identical(t, errorType) || isNil(f.Info, e) {
 			return nilness(e, facts, rets)
 		}
+		if _, isPtr := t.Underlying().(*types.Pointer); isPtr {
+			return nilness(e, facts, rets)
+		}
 		return 0
 	}
 	tracked := func(e ast.Expr) types.Object {
@@ -385,7 +405,7 @@ func (f *FuncCFG) reach(from Point, o *searchOpts, target func(pt Point, atExit 
 			initFacts[k] = v
 		}
 	}
-	queue := []item{{from.B, from.I, nil, initFacts, nil}}
+	queue := []item{{from.B, from.I, nil, initFacts, nil, nil}}
 	first := true
 	for len(queue) > 0 {
 		it := queue[0]
@@ -394,6 +414,7 @@ func (f *FuncCFG) reach(from Point, o *searchOpts, target func(pt Point, atExit 
 			continue
 		}
 		if !first || it.i == 0 {
+			curRetv = it.retv
 			k := fp(it.b, it.facts, it.rets)
 			if seen[k] {
 				continue
@@ -405,6 +426,7 @@ func (f *FuncCFG) reach(from Point, o *searchOpts, target func(pt Point, atExit 
 		path := it.path
 		facts := it.facts
 		rets := it.rets
+		retv := it.retv
 		setFact := func(ob types.Object, v bool) {
 			cp := map[types.Object]bool{}
 			for k2, v2 := range facts {
@@ -434,6 +456,30 @@ func (f *FuncCFG) reach(from Point, o *searchOpts, target func(pt Point, atExit 
 					for ri := range rg.rets {
 						rt := &rg.rets[ri]
 						if rt.pt.B == it.b && rt.pt.I == i && len(rt.results) > 0 {
+							if len(rt.results) > 1 {
+								vec := make([]byte, len(rt.results))
+								known := false
+								for vi, res := range rt.results {
+									switch valueOf(res, facts, rets) {
+									case 1:
+										vec[vi], known = '+', true
+									case -1:
+										vec[vi], known = '-', true
+									default:
+										vec[vi] = '0'
+									}
+								}
+								cpv := map[*region]string{}
+								for k2, v2 := range retv {
+									cpv[k2] = v2
+								}
+								if known {
+									cpv[rg] = string(vec)
+								} else {
+									delete(cpv, rg)
+								}
+								retv = cpv
+							}
 							last := rt.results[len(rt.results)-1]
 							isB := false
 							if t := f.Info.TypeOf(last); t != nil {
@@ -501,6 +547,13 @@ func (f *FuncCFG) reach(from Point, o *searchOpts, target func(pt Point, atExit 
 							if v, has := rets[rg]; has && v != 0 {
 								if ob := tracked(as.Lhs[len(as.Lhs)-1]); ob != nil {
 									setFact(ob, v > 0)
+								}
+							}
+							if vec, has := retv[rg]; has && len(vec) == len(as.Lhs) {
+								for li, l := range as.Lhs {
+									if ob := tracked(l); ob != nil && vec[li] != '0' {
+										setFact(ob, vec[li] == '+')
+									}
 								}
 							}
 						}
@@ -587,7 +640,7 @@ func (f *FuncCFG) reach(from Point, o *searchOpts, target func(pt Point, atExit 
 					continue
 				}
 			}
-			queue = append(queue, item{s, 0, path, nf, rets})
+			queue = append(queue, item{s, 0, path, nf, rets, retv})
 		}
 	}
 	return nil, false
